@@ -36,18 +36,19 @@ ASSUMPTIONS = [
   'pre-emption is modelled at synchronisation calls, source pulls and (line-level runs) source lines of prefetch_iterator.py; not between bytecodes',
   'after close() only order/uniqueness of delivered items and termination are asserted (the property says nothing about close)',
 ]
-PROBES = ['producer_done_before_ctor_returned', 'error_first_item', 'consumer_blocked', 'producer_blocked_full', 'close_while_producer_waiting', 'line_level_runs', 'ptd_runs', 'psu_padded']
+PROBES = ['producer_done_before_ctor_returned', 'error_first_item', 'consumer_blocked', 'producer_blocked_full', 'close_while_producer_waiting', 'line_level_runs', 'ptd_runs', 'psu_padded', 'helpers_runs']
 
 _flax = None
 
 
 def setup_worker(w, tier):
-  global _flax, np, jax, pi_mod, jax_utils
+  global _flax, np, jax, jnp, pi_mod, jax_utils
   import sim.jaxcompat as jc
 
   _flax = jc.import_flax()
   import numpy as np
   import jax
+  import jax.numpy as jnp
   import warnings
   from flax.training import prefetch_iterator as pi_mod
   from flax import jax_utils
@@ -68,6 +69,12 @@ ERR_CLASSES = {'RuntimeError': RuntimeError, 'KeyError': KeyError, 'ValueError':
 
 def generate(rs, tier):
   g = stream(rs, 'gen')
+  if g.random() < 0.004:
+    # ride-along workload (no schedule or fault dimension, not what this check is claimed for): the pure reshape helpers
+    nd = g.choice([2, 3, 3])
+    shape = [g.randrange(1, 4) for _ in range(nd)]
+    axis = g.sample(range(nd), g.randrange(1, nd + 1))
+    return dict(engine='pipeworld', knobs=dict(kind='helpers', shape=shape, axis=axis, keepdims=g.random() < 0.5, devices=g.choice([1, 2, 4]), classes=g.randrange(2, 6), fill=g.randrange(5)), ops=[])
   kind = 'PrefetchIterator' if g.random() < 0.8 else 'prefetch_to_device'
   n = g.choice([0, 1, 1, 2, 2, 3, 3, 4, 5, 6])
   fail_at = g.randrange(0, n + 1) if g.random() < 0.5 else None
@@ -98,6 +105,8 @@ SHRINK_LISTS = ['ops']
 
 def simplify(plan):
   k = plan['knobs']
+  if k['kind'] == 'helpers':
+    return
   sch = plan.get('schedule')
   if sch:
     yield dict(plan, schedule=[])
@@ -130,6 +139,8 @@ def simplify(plan):
 
 def signature(plan, v):
   k = plan['knobs']
+  if k['kind'] == 'helpers':
+    return dict(kind='helpers')
   return dict(kind=k['kind'], first_item=(k['fail_at'] == 0), has_close=('close' in plan['ops']))
 
 
@@ -170,9 +181,75 @@ def _ident(item):
   return int(x.reshape(-1)[0] % 100000) // 1000 - 1
 
 
+def execute_helpers(plan):
+  """scan_in_dim == nested Python loop over the chosen axes (in the given order); shard / stack_forest / onehot /
+  unreplicate are the stated reshapes.  Pure functions: plain input generation, carried by this check as workload."""
+  from flax.training import common_utils
+
+  res = Result()
+  k = plan['knobs']
+  viol = None
+  try:
+    shape, axis = tuple(k['shape']), tuple(k['axis'])
+    xs = (np.arange(int(np.prod(shape)), dtype=np.float32).reshape(shape) % 7) + k['fill']
+
+    def body(c, x):
+      c2 = c * 2.0 + jnp.sum(x)  # order-sensitive carry
+      return c2, x + c2
+
+    c, ys = jax_utils.scan_in_dim(body, jnp.zeros((), jnp.float32), jnp.asarray(xs), axis=axis, keepdims=k['keepdims'])
+    # reference: nested Python loops, outermost = axis[0]
+    import itertools
+
+    cref = np.float32(0)
+    rest = [i for i in range(len(shape)) if i not in axis]
+    yref = np.zeros(shape, np.float32)
+    for idx in itertools.product(*[range(shape[a]) for a in axis]):
+      sl = [slice(None)] * len(shape)
+      for a, i in zip(axis, idx):
+        sl[a] = i
+      x = xs[tuple(sl)]
+      cref = np.float32(cref * 2.0 + x.sum())
+      yref[tuple(sl)] = x + cref
+    if float(c) != float(cref) or np.asarray(ys).reshape(shape).tobytes() != yref.tobytes():
+      raise Violation('scan-in-dim-mismatch', f'scan_in_dim(axis={axis}, keepdims={k["keepdims"]}) on shape {shape}: carry {float(c)} vs loop {float(cref)}')
+    d = k['devices']
+    real_ldc = jax.local_device_count
+    jax.local_device_count = lambda *a, **kw: d
+    try:
+      b = np.arange(d * 3 * 2, dtype=np.float32).reshape(d * 3, 2)
+      sh = common_utils.shard({'x': b})['x']
+      if sh.shape != (d, 3, 2) or np.asarray(sh).tobytes() != b.reshape(d, 3, 2).tobytes():
+        raise Violation('shard-mismatch', f'shard with {d} devices')
+    finally:
+      jax.local_device_count = real_ldc
+    forest = [{'a': np.full((2,), i, np.float32), 'b': np.full((), -i, np.float32)} for i in range(3)]
+    st = common_utils.stack_forest(forest)
+    if np.asarray(st['a']).tolist() != [[0, 0], [1, 1], [2, 2]] or np.asarray(st['b']).tolist() != [0, -1, -2]:
+      raise Violation('stack-forest-mismatch', 'stack_forest')
+    labels = (np.arange(6) % k['classes']).reshape(2, 3)
+    oh = np.asarray(common_utils.onehot(jnp.asarray(labels), k['classes']))
+    if oh.shape != (2, 3, k['classes']) or not (oh.argmax(-1) == labels).all() or oh.sum() != 6:
+      raise Violation('onehot-mismatch', 'onehot')
+    rep = {'w': np.stack([np.arange(3.0)] * d)}
+    if np.asarray(jax_utils.unreplicate(rep)['w']).tolist() != [0.0, 1.0, 2.0]:
+      raise Violation('unreplicate-mismatch', 'unreplicate')
+    res.probe('helpers_runs')
+  except Violation as v:
+    viol = dict(kind=v.kind, detail=v.detail)
+  res.ops = 1
+  res.steps = 1
+  res.digest = kernel.digest(['helpers', k])
+  res.nontrivial = False
+  res.violation = viol
+  return res
+
+
 def execute(plan):
   from sim import sched as S
 
+  if plan['knobs']['kind'] == 'helpers':
+    return execute_helpers(plan)
   res = Result()
   log = kernel.Log()
   k = plan['knobs']
